@@ -7,16 +7,40 @@ import sys
 from . import common, fakesock
 
 
+class _PrologueDone(BaseException):
+    """raised by the session's Event.wait: the worker has reached its first wait (everything before the loop has run)"""
+
+
 class FakeThread:
-    """the clock thread is not run (ticks are explicit operations), but its liveness follows the real worker's only exit:
-    the worker leaves its loop as soon as the breaker event of its CLCKGen is set"""
+    """the clock thread's LOOP is not run (ticks are explicit operations), but (a) its prologue is: start() runs the real worker
+    up to its first wait on the breaker, so whatever the worker does before ticking (scheduler priority) really happens and a
+    worker that dies there is a dead thread; (b) its liveness follows the real worker's only exit: the worker leaves its loop as
+    soon as the breaker event of its CLCKGen is set"""
+    in_prologue = False
+
     def __init__(self, target=None, **kw):
         self.alive = False
         self.daemon = True
+        self.target = target
+        self.died = None
         self.owner = getattr(target, "__self__", None)
 
     def start(self):
         self.alive = True
+        br = getattr(self.owner, "_breaker", None)
+        if self.target is None or br is None or br.is_set() or not isinstance(br, SessEvent):
+            return
+        FakeThread.in_prologue = True
+        try:
+            self.target()
+            self.alive = False                      # the worker returned without ever waiting
+        except _PrologueDone:
+            pass
+        except Exception as e:  # noqa              # an exception in the thread body ends the thread (threading prints it)
+            self.alive = False
+            self.died = type(e).__name__
+        finally:
+            FakeThread.in_prologue = False
 
     def is_alive(self):
         br = getattr(self.owner, "_breaker", None)
@@ -26,6 +50,41 @@ class FakeThread:
 
     def join(self, timeout=None):
         self.alive = False
+
+
+import threading as _real_threading
+
+
+class SessEvent(_real_threading.Event):
+    def wait(self, timeout=None):
+        if FakeThread.in_prologue:
+            raise _PrologueDone()
+        return _real_threading.Event.wait(self, timeout)
+
+
+class FakeOS:
+    """os as clck_gen sees it: sched_setscheduler with the kernel's rules for SCHED_RR (priority 1..99, else EINVAL) for an
+    unprivileged process (EPERM) or a privileged one"""
+    SCHED_RR = 2
+    privileged = False
+    calls = []
+
+    class sched_param:
+        def __init__(self, prio):
+            self.sched_priority = prio
+
+    @staticmethod
+    def sched_setscheduler(pid, policy, param):
+        import errno
+        FakeOS.calls.append(param.sched_priority)
+        if not 1 <= param.sched_priority <= 99:
+            raise OSError(errno.EINVAL, "Invalid argument")
+        if not FakeOS.privileged:
+            raise PermissionError(errno.EPERM, "Operation not permitted")
+
+    def __getattr__(self, k):
+        import os
+        return getattr(os, k)
 
 
 class Draws:
@@ -57,7 +116,7 @@ class StaleHandler(logging.Handler):
 class Session:
     SRC = ("127.0.0.9", 4242)
 
-    def __init__(self, trx_defs=(), bts_port=5700, bb_port=6700, bts_addr=None, bb_addr=None):
+    def __init__(self, trx_defs=(), bts_port=5700, bb_port=6700, bts_addr=None, bb_addr=None, sched_rr_prio=None, privileged=False):
         """trx_defs: list of (addr, port, idx) additional --trx definitions; bts_addr / bb_addr: -R / -r (peers of BTS and MS)"""
         common.import_toolkit()
         self.FS = fakesock.install()
@@ -75,9 +134,12 @@ class Session:
             Thread = FakeThread
             Event = clck_gen.threading.Event if hasattr(clck_gen.threading, "Event") else None
         self._orig_threading = clck_gen.threading
-        import threading as _rt
-        _T.Event = _rt.Event
+        _T.Event = SessEvent
         clck_gen.threading = _T
+        self._orig_os = clck_gen.os
+        FakeOS.privileged = bool(privileged)
+        FakeOS.calls = []
+        clck_gen.os = FakeOS()
 
         class _Time:
             @staticmethod
@@ -90,6 +152,8 @@ class Session:
         self._orig_time = ctrl_if.time
         ctrl_if.time = _Time
         argv = ["fake_trx", "--log-level", "CRITICAL", "-P", str(bts_port), "-p", str(bb_port)]
+        if sched_rr_prio is not None:
+            argv += ["-s", str(sched_rr_prio)]
         if bts_addr is not None:
             argv += ["-R", bts_addr]
         if bb_addr is not None:
@@ -128,6 +192,7 @@ class Session:
         random.randint = self._orig_randint
         fake_pm.randint = self._orig_randint
         clck_gen.threading = self._orig_threading
+        clck_gen.os = self._orig_os
         ctrl_if.time = self._orig_time
         root = logging.getLogger()
         root.removeHandler(self.stale)
